@@ -7,8 +7,12 @@ def _drive(ctx, bdir, binary, jobs):
     def one(job):
         args, out = job
         try:
-            subprocess.run([os.path.join(bdir, binary)] + [str(a) for a in args] + [out], stdout=subprocess.DEVNULL,
-                           stderr=subprocess.DEVNULL, timeout=1800)
+            env = dict(os.environ)                      # sanitizer failures must reach the SIGABRT handler (which logs a Crash event)
+            env.setdefault('ASAN_OPTIONS', 'abort_on_error=1:detect_leaks=1:allocator_may_return_null=1')
+            env.setdefault('UBSAN_OPTIONS', 'abort_on_error=1:halt_on_error=1:print_stacktrace=1')
+            with open(out + '.err', 'wb') as errf:      # sanitizer reports of the driver, for triage
+                subprocess.run([os.path.join(bdir, binary)] + [str(a) for a in args] + [out], stdout=subprocess.DEVNULL,
+                               stderr=errf, timeout=1800, env=env)
         except subprocess.TimeoutExpired:
             with open(out, 'a') as f:
                 f.write('{"a":"Crash","what":"driver timeout","during":""}\n')
@@ -170,14 +174,22 @@ PLANS['C08'] = {
                       keyfn=lambda ev: (ev.get('a'), ev.get('result'), json.dumps(ev.get('red', ev.get('inq')))[:400]) if ev.get('a') in ('simplify', 'unsimp') else None),
 }
 
-def params_runner(sizes):
+PLANS['C13'] = {
+    'level': 'exploration', 'tv_spec': 'TV_API',
+    'run': api_runner({'quick': [('readers', 25, 6, 16)], 'thorough': [('readers', 300, 8, 16)]}, variant='asanub',
+                      rule='one evaluation = one reader call on a (mutated) file or one call of the post-read sequence, executed in an AddressSanitizer build and validated by TLC (self-consistent state after every read, exact LP for unmutated seed files, correct solves afterwards)',
+                      keyfn=lambda ev: (ev.get('a'), ev.get('mutation'), ev.get('ext'), ev.get('ret'), ev.get('bytes')) if ev.get('a') in ('readFile', 'readBasisFuzz') else None,
+                      assumptions=['driver built with -fsanitize=address,undefined (variant asanub) and a LeakSanitizer check at the end of every execution; a read that does not return within 10 s is reported as a hang']),
+}
+
+def params_runner(sizes, wl='rnd', variant='rel', tag='tv'):
     def run(ctx):
-        bdir = ctx['build']('rel', ['params_drv'])
+        bdir = ctx['build'](variant, ['params_drv'])
         mcres, viol, infra = _mc_all(ctx, [dict(name='Params', cfg='MC_Params.cfg', tla='MC_Params.tla', workers=ctx['ncpu'], timeout=900, coverage=True)] if os.path.exists(os.path.join(ctx['verif'], 'spec', 'MC_Params.tla')) else [])
         nexec, ln, shards = sizes[ctx['tier']]
-        jobs = [(('rnd', ctx['seed'] * 100003 + sh * 7919 + 1, nexec, ln), os.path.join(ctx['rundir'], 'params-%d.ndjson' % sh)) for sh in range(shards)]
+        jobs = [((wl, ctx['seed'] * 100003 + sh * 7919 + 1, nexec, ln), os.path.join(ctx['rundir'], 'params-%s-%d.ndjson' % (wl, sh))) for sh in range(shards)]
         traces = _drive(ctx, bdir, 'params_drv', jobs)
-        s = ctx['validate_traces']('TV_Params', traces)
+        s = ctx['validate_traces']('TV_Params', traces, tag=tag)
         ctx['log']('TV: %d events validated, %d violations, %d known, %d infra' % (s['events'], len(s['violations']), len(s['known']), len(s['infra'])))
         nexe = ctx['count_executions'](traces)
         cov = {'states': sum(m['distinct'] for m in mcres) + s['events'], 'transitions': sum(m['states'] for m in mcres) + s['events'],
@@ -329,3 +341,7 @@ PLANS['C10'] = {'level': 'model_checking', 'tv_spec': 'TV_LU', 'tv_env': {'LUMOD
 PLANS['C11'] = {'level': 'model_checking', 'tv_spec': 'TV_LU', 'tv_env': {'LUMODE': 'rational'},
                 'run': combo_runner(lu_runner('rational', {'quick': (20, 8, 16), 'thorough': (200, 10, 16)}, {'thorough': {'VERIF_LU_MAXDIM': '20', 'VERIF_LU_BITS': '200'}}, tag='lu'),
                                     api_runner({'quick': [('binvq', 12, 30, 16)], 'thorough': [('binvq', 150, 40, 16)]}, tag='binvq'))}
+
+# C13 covers four readers: LP / MPS / basis files (api_drv 'readers') and settings files (params_drv 'fuzz'), both in the sanitizer build
+PLANS['C13']['run'] = combo_runner(PLANS['C13']['run'],
+                                   params_runner({'quick': (12, 60, 8), 'thorough': (120, 80, 16)}, wl='fuzz', variant='asanub', tag='set'))
